@@ -234,10 +234,13 @@ func (x *Exec) schemaCall(st *State, method string, recv Value, bufv Value, in s
 		structural := false
 		if gv == nil && len(segs) > 0 && segs[0].Op == "app" && segs[0].Name == "Wd" {
 			ht := segs[0].Args[0]
-			if !Same(ht, tag) && x.rtMode && ht.Op == "var" {
-				// the caller supplied this part: "body/extension type matching its discriminator" is the property's domain
-				st.assume(Eq(ht, tag))
-				x.V.assumptionsUsed["round-trip domain: a caller-supplied body/extension has the type its discriminator selects"] = true
+			if !Same(ht, tag) && x.rtMode {
+				// the part on the wire must be of the type this decoder expects ("body/extension type matching its
+				// discriminator" is a hypothesis of the round trip, pinned by the dyn clauses of the layout)
+				if st.implied(Eq(ht, tag)) != 1 {
+					x.oblige(st, "pre", label+"/rt/part-type-matches", Eq(ht, tag), "the decoder builds the type of the part that was encoded")
+					st.assume(Eq(ht, tag))
+				}
 				ht = tag
 			}
 			if Same(ht, tag) {
@@ -265,11 +268,16 @@ func (x *Exec) schemaCall(st *State, method string, recv Value, bufv Value, in s
 				st.assume(Implies(hyp, And(errNil, Eq(u1, gr), Eq(mv1, gv))))
 			}
 		}
-		// allocation: a nested decoder allocates in proportion to what it consumes (its own alloc obligation)
+		// allocation: the nested decoder's own bound (its constants are proved for its type by DecodeSafe)
+		pa, pb := x.V.allocConstsOfTag(tag)
 		na := FreshInt("alloc")
 		consumed := Sub(Len(u0), Len(st.get(buf).Seq))
-		st.assume(And(Le(st.alloc, na), Implies(errNil, Le(na, Add(st.alloc, IntC(allocB), Mul(IntC(allocA), consumed)))), Implies(Not(errNil), Le(na, Add(st.alloc, IntC(allocB), Mul(IntC(allocA), Len(u0)))))))
+		st.assume(And(Le(st.alloc, na), Implies(errNil, Le(na, Add(st.alloc, IntC(pb), Mul(IntC(pa), consumed)))), Implies(Not(errNil), Le(na, Add(st.alloc, IntC(pb), Mul(IntC(pa), Len(u0)))))))
 		st.alloc = na
+		st.allocC += pb
+		if pa > st.allocA {
+			st.allocA = pa
+		}
 	}
 	rec.PostU = st.get(buf).Seq
 	if x.onCall != nil {
@@ -281,8 +289,8 @@ func (x *Exec) schemaCall(st *State, method string, recv Value, bufv Value, in s
 	return VTuple{}
 }
 
-const allocA = 64   // bytes of allocation allowed per input byte consumed
-const allocB = 4096 // constant allowance per decoder call
+const maxAllocA = 16384  // a decoder's per-byte allocation factor must stay below this to count as "a small multiple"
+const maxAllocB = 262144 // and its constant below this
 
 // ---------------------------------------------------------------- discriminator tables
 
@@ -446,6 +454,7 @@ func (x *Exec) tableCall(st *State, ti *TableInfo, short string, args []Value, i
 	o := newObj("dyn", nil, short+"-result", "fresh")
 	st.heap[o] = &Content{Tag: tag, MV: zeroMV(tag)}
 	st.alloc = Add(st.alloc, IntC(256))
+	st.allocC += 256
 	errNil := FreshBool(short + ".err.isnil")
 	st.assume(Eq(errNil, dom))
 	if x.onCall != nil {
